@@ -113,6 +113,8 @@ def step (s : St) (line : String) : St × String :=
   | ["reset", ns] => ({ Lifecycle.init with now := ns.toNat?.getD 0 }, "ok")
   | ["reset", ns, selfHex] => ({ Lifecycle.init with now := ns.toNat?.getD 0, self := (nameOf selfHex).getD "" }, "ok")
   | ["noop"] => (s, "skip")
+  | ["restart"] => ((Lifecycle.step s .restart).1, "ok D:" ++ dump s ++ " R:" ++ dumpRel s)
+  | "dry" :: _ => (s, "dropped D:" ++ dump s ++ " R:" ++ dumpRel s)
   | ["time", ns] =>
     match ns.toNat? with
     | some n => ((Lifecycle.step s (.time n)).1, "ok")
